@@ -107,7 +107,7 @@ def run_case(case: dict) -> dict:
         tasks = [asyncio.create_task(one(i, j["start"]), name=f"run{i}") for i, j in enumerate(case["jobs"])]
         if case["undeploy"] is not None:
             tasks.append(asyncio.create_task(und(case["undeploy"]["after"]), name="undeploy"))
-        done, pending = await asyncio.wait(tasks, timeout=4000 * unit)
+        done, pending = await asyncio.wait(tasks, timeout=(4000 * unit if case["virtual"] else 150))
         if pending:
             out["hang"] = True
             out["pending"] = sorted(t.get_name() for t in pending)
@@ -116,7 +116,7 @@ def run_case(case: dict) -> dict:
         out["final_scheduled"] = sorted(conn._scheduled_jobs)
 
     try:
-        run_controlled(main, case["lseed"], timeout=(None if case["virtual"] else 60), virtual_time=case["virtual"])
+        run_controlled(main, case["lseed"], timeout=(None if case["virtual"] else 200), virtual_time=case["virtual"])
     except TimeoutError:
         out["hang"] = True
     out["log"] = slurm.log
